@@ -1,14 +1,16 @@
 #!/bin/bash
 # confirm_seed.sh <id> [<name>] : confirms a seeded change in the scratch worktree /tmp/wt/<name> (default <id>):
-#   demo fails with the change, the unedited suite passes with it, demo passes without it.  Writes /tmp/wt_out/<name>/confirm.json
+#   the worktree is reset to HEAD + /tmp/wt_out/<name>/patch.diff; demo fails with the change, the unedited suite
+#   passes with it, demo passes without it.  Writes /tmp/wt_out/<name>/confirm.json.  (No `git stash`: it is shared
+#   between worktrees.)
 id=$1; name=${2:-$1}; wt=/tmp/wt/$name; out=/tmp/wt_out/$name
 cd $wt || exit 2
-git diff > $out/patch.confirm.diff
+git checkout -q -- . && git apply $out/patch.diff || { echo "patch does not apply"; exit 2; }
 PYTHONPATH=$wt timeout 300 /venv/bin/python $out/demo.py > $out/demo_with.log 2>&1; with=$?
 PYTHONPATH=$wt timeout 1500 /venv/bin/python -m pytest -q -p no:cacheprovider --timeout=900 -n 8 > $out/suite_with.log 2>&1; suite=$?
-git stash -q
+git apply -R $out/patch.diff
 PYTHONPATH=$wt timeout 300 /venv/bin/python $out/demo.py > $out/demo_without.log 2>&1; without=$?
-git stash pop -q
+git apply $out/patch.diff
 summary=$(tail -1 $out/suite_with.log)
 echo "{\"id\":\"$id\",\"demo_with_change_exit\":$with,\"suite_with_change_exit\":$suite,\"suite_summary\":\"$summary\",\"demo_without_change_exit\":$without}" > $out/confirm.json
 cat $out/confirm.json
